@@ -296,7 +296,12 @@ fn check_text_src(name: &str, src: &str, l: &mut Local) {
             l.sample(|| json!({"source": src, "linear": lm.to_string()}));
             // rows that fold to constants may vanish: only names of rows that can survive are required
             let surviving: Vec<String> = user_rows.iter().filter(|u| lm.constraints().iter().any(|c| c.name() == **u || c.name().starts_with(&format!("{u}__")))).cloned().collect();
+            // the "no guessed constant above 1e7" rule only applies to texts whose own literals are small
+            let big_source = src.split(|c: char| !c.is_ascii_digit()).any(|t| t.len() > 7);
             for (sig, what) in wellformed(&lm, &refs, &surviving, &user_vars) {
+                if big_source && sig == "suspicious-large-constant" {
+                    continue;
+                }
                 l.violation(format!("{sig}:{name}"), what.clone(), case_json(what, Some(lm.to_string())));
             }
             // every user name must be used first verbatim: the first row carrying a name derived from u is u itself
